@@ -329,6 +329,13 @@ def run_vm(cases, log):
 def outcome_match(impl, model):
     if impl == model:
         return True
+    if '|mem:' in model and '|mem:' in impl:       # canary: the inner answer, then the memory report
+        mi, ms = impl.rsplit('|mem:', 1)
+        oi, os_ = model.rsplit('|mem:', 1)
+        return ms == os_ and outcome_match(mi, oi)
+    if ';' in model and not model.startswith('r:'):  # a concurrent history: one answer per operation
+        a, b = impl.split(';'), model.split(';')
+        return len(a) == len(b) and all(outcome_match(x, y) for x, y in zip(a, b))
     if model.startswith('err:*') and impl.startswith('err:'):
         return True
     if model.startswith('sprefix:'):   # specification column: a string result with this prefix
@@ -451,6 +458,8 @@ PROPS = {
     'C18': {'streams': [('c18', 1200, 40000)]},
     'C19': {'streams': [('c19', 600, 20000)]},
     'C20': {'streams': [('c20', 1500, 40000)]},
+    'C11': {'streams': [('c11', 60, 2000)]},
+    'C12': {'streams': [('c12', 800, 30000)]},
     'C13': {'streams': [('c13', 900, 30000)]},
     'C14': {'streams': [('c14', 1500, 50000)]},
     'C15': {'streams': [('c15', 1500, 60000)]},
